@@ -7,6 +7,10 @@
 //! * A reach probe reporting which parser slots were still filled when a
 //!   parser state is re-targeted at a new input.
 //!
+//! * Cooperative yield points: a few places inside the parsers, the fold, `Hash` and `PartialEq`
+//!   call [`yield_point`]; a simulator that runs several caller threads one at a time installs a
+//!   per-thread hook there and so decides where threads are switched.
+//!
 //! With the cfg flag off, nothing in this file exists.
 
 use std::cell::RefCell;
@@ -46,6 +50,25 @@ thread_local! {
     static DIRTY: RefCell<[u64; 32]> = const { RefCell::new([0; 32]) };
     /// mask seen by the most recent `reset_to`
     static LAST_DIRTY: RefCell<Option<u8>> = const { RefCell::new(None) };
+    /// this thread's cooperative-scheduling hook (none: yield points cost one thread-local read)
+    static YIELD_HOOK: RefCell<Option<std::rc::Rc<dyn Fn(u32)>>> = const { RefCell::new(None) };
+}
+
+/// Install (or remove) the cooperative-scheduling hook of the current thread
+pub fn set_yield_hook(hook: Option<std::rc::Rc<dyn Fn(u32)>>) {
+    YIELD_HOOK.with(|h| *h.borrow_mut() = hook);
+}
+
+/// A point at which a simulator may park this thread and let another caller thread run.
+/// `site`: 1 enum term parser, 2 lexical term parser, 3 lexical fold, 4 `Hash for Term`,
+/// 5 `PartialEq for Term`.
+#[inline]
+pub fn yield_point(site: u32) {
+    // clone the handle out first: the hook may run for a long time (this thread is parked in it)
+    let hook = YIELD_HOOK.with(|h| h.borrow().clone());
+    if let Some(hook) = hook {
+        hook(site)
+    }
 }
 
 #[inline]
